@@ -123,7 +123,7 @@ def search(ctx):
         pass
     for src in SEARCH_SOURCES:
         out.append("C04.fix\ttext:" + src.encode().hex())
-    for d in SEARCH_NAMES:
+    for d in SEARCH_NAMES + generated_name_candidates():
         out.append("C04.names\t" + d + "\t?")
     # and a slice of the literal stream with other seeds
     out += ["C04.fix\tlit:%d" % (1000003 * k + ctx.seed) for k in range(1, 120)]
@@ -183,6 +183,52 @@ SEARCH_NAMES = [
     # an enum scope in between: a root namespace `E` and an enum `E` in the using namespace
     "ns E gv x end ns M en E V end fn g - uv a E x ; ue r E V ; end end",
 ]
+
+
+# the names of the stream's pool the exporter has to rename (reserved words of the output language that are plain
+# identifiers of the source language) and a pool name that is renamed because a namespace of the scope has it too
+RENAMED_POOL = ["texture", "pass", "technique"]
+
+
+def generated_name_candidates():
+    """descriptors tried when an obligation about generated names no longer checks (`generated_names_reserved_as_modelled`,
+    C15's leg over NameMap::build): every kind of entity whose name gets RENAMED on export, with a parameter / local /
+    local of a nested block / local of a method body spelled exactly like the generated name `<name>_<k>` (k = 0..2),
+    followed by uses of the entity in that scope - type: declaration, cast + enum variable, enum value through it,
+    namespace-level use; function / global: call, assignment (control: those are reserved by the usage loop)"""
+    out = []
+    for n in RENAMED_POOL:
+        for k in range(3):
+            g = "%s_%d" % (n, k)
+            # the entity alone in its scope is printed <n>_0; next to a namespace of that name it is <n>_1; next to a
+            # namespace and a user entity called <n>_1 it is <n>_2
+            pre = ["", "ns %s gv q end " % n, "ns %s gv q end gv %s_1 " % (n, n)][k]
+            out += [
+                pre + "st %s end fn f %s ut a %s ; end" % (n, g, n),
+                pre + "st %s end fn f - lv %s ut a %s ; ut r %s ; end" % (n, g, n, n),
+                pre + "st %s end fn f - bl lv %s ut r %s ; end end" % (n, g, n),
+                pre + "st %s end st T lv %s ut a %s ; end" % (n, g, n),
+                pre + "st %s end ns M fn f %s ut a %s ; end end" % (n, g, n),
+                "ns M " + pre + "st %s end fn f %s ut r %s ; ut a M %s ; end end" % (n, g, n, n),
+            ]
+            if k == 0:
+                out += [
+                    "en %s V1 end fn f %s uy a %s ; ue a %s V1 ; end" % (n, g, n, n),
+                    "en %s V1 end fn f - lv %s uy a %s ; ue r V1 ; end" % (n, g, n),
+                    "en E %s end fn f - lv %s ue a E %s ; ue a %s ; end" % (n, g, n, n),
+                    "ns %s st S end gv x end fn f %s ut a %s S ; uv a %s x ; end" % (n, g, n, n),
+                    "st %s end td W a %s ; fn f %s ut r W ; end" % (n, n, g),
+                    # control: functions / globals
+                    "fn %s - end fn g %s uf a %s ; end" % (n, g, n),
+                    "gv %s fn g - lv %s uv a %s ; end" % (n, g, n),
+                    "gv %s fn g %s bl lv %s uv a %s ; end end" % (n, g, g, n),
+                ]
+    # homonyms across kinds (no reserved word): namespace A and struct A in one scope are printed A_0 and A_1
+    for k in range(3):
+        out += ["ns A gv q end st A end fn f A_%d ut a A ; end" % k,
+                "ns A gv q end st A end fn f - lv A_%d ut a A ; uv a A q ; end" % k,
+                "ns B ns A gv q end st A end fn f A_%d ut r A ; end end" % k]
+    return out
 
 
 def nontrivial(req, obs):
@@ -253,6 +299,20 @@ def finding_key(req, obs, detail):
         line = detail.split("failed to parse source", 1)[1]
         if re.search(r"[^<]<(?![<=]).*[^>\-]>(?![>=]) \(", line):
             return TEMPLATE_LOOKAHEAD_KEY
+    for msg in ("expression could not be evaluated as a constant expression", "function call applied to non-function type"):
+        # the same look-ahead when the bogus reading PARSES: `g1 + g1 < g1 << g1 && (g1 | g1) > (uint)(2.5f, 2)` is read as
+        # `g1 + g1<g1 << g1 && (g1 | g1)>(uint)(..)` - a template instantiation whose argument is not a constant - and
+        # `7u >> 0u < 1u && (uint)2.5f > (c ? a : b)` as a call of `0u<..>(..)`; the typer then refuses what the parser
+        # accepted.  Recognised by the message, by the shape of the offending line and by the error position: the caret
+        # stands at or after the operand in front of the first `<` of that shape
+        if "emitted HLSL is rejected" in (detail or "") and msg in detail:
+            line = detail.split(msg, 1)[1]
+            mm = re.match(r"\\+n(.*?)\\+n( *)\^", line)
+            if mm:
+                text, col = mm.group(1), len(mm.group(2))
+                sh = re.search(r"[^<]<(?![<=]).*[^>\-]>(?![>=]) \(", text)
+                if sh and col <= sh.start() + 3:
+                    return TEMPLATE_LOOKAHEAD_KEY
     m = re.search(r"emitted HLSL is rejected: .*?error: '(\w+)' was not declared in this scope", detail or "")
     if m and req.startswith("C04.fix\t"):
         # a member of a cbuffer declared inside a namespace is printed by its leaf name (C15's known finding
@@ -268,7 +328,7 @@ def finding_key(req, obs, detail):
 
 SPEC = {
     "id": "C04",
-    "gens": ["SlotTables", "FixpointTables", "PathLookup", "TemplateConst", "RankTable", "TypingTables", "HlslGenTables", "HlslIntrinsicTables",
+    "gens": ["SlotTables", "FixpointTables", "PathLookup", "TemplateConst", "NameReserve", "RankTable", "TypingTables", "HlslGenTables", "HlslIntrinsicTables",
              "MetaTables", "CompileTables"] + LEG_GENS,
     "lean_modules": ["RsslVerif.Thm.C04"] + LEG_MODULES,
     "theorems": [T + n for n in [
@@ -286,7 +346,10 @@ SPEC = {
         "emitted_path_captured_witness", "namesAgree_of_pathsResolveBack", "fixpoint_expr_paths",
         # the kind of a template value argument through export and re-compilation (Model.FixpointTemplate)
         "template_const_as_modelled", "emitted_literal_kind_stable", "template_instance_reelab",
-        "template_instance_reelab_stmt", "emitted_literal_kind_int32_witness", "mutant_discipline_loses_literal_kind"]] + LEG_THEOREMS,
+        "template_instance_reelab_stmt", "emitted_literal_kind_int32_witness", "mutant_discipline_loses_literal_kind",
+        # generated names are reserved against locals (C15's model of NameMap::build, Lemmas.FixpointGenNames)
+        "generated_names_reserved_as_modelled", "local_meets_only_kept_names", "generated_names_apart_from_locals",
+        "late_set_loses_generated_type_names"]] + LEG_THEOREMS,
     "harness": "c04",
     "custom": custom,
     "nontrivial": nontrivial,
@@ -316,12 +379,19 @@ SPEC = {
             "uses, enum named like its namespace), structs with a method whose body uses names, typedefs of qualified struct / enum "
             "types, functions with parameters named like namespaces / globals, locals and nested blocks shadowing namespace members, "
             "`::`-prefixed paths and every relative suffix of the full path from every position (same namespace, sibling, nested, "
-            "root, method body, nested block, namespace-level `static PATH g;`), declarations before / after a homonym, and (1 in 10) "
+            "root, method body, nested block, namespace-level `static PATH g;`), declarations before / after a homonym, names the "
+            "exporter has to RENAME (reserved words of the output language that are plain identifiers of the source: texture / pass "
+            "/ technique, for every declaration kind; several symbols of one name in a scope) together with locals / parameters "
+            "(1 in 3) spelled exactly like a generated name `<name>_<k>`, k = 0..2, of something declared before and followed by "
+            "uses of that entity in the scope of the local (type: declaration, cast / enum variable, enum value; control: call of "
+            "the function, assignment of the global), entities spelled like generated names (kept verbatim), and (1 in 10) "
             "a use that must not resolve; every declaration carries its id as a constant and every use its ordinal, so both emitted "
             "texts say which entity each use refers to; oracle = the emitted text is accepted and the second text is byte-identical; "
             "the harness's own scope simulation of the exported program (rebuilt from the printed text) names the class of a failure "
-            "that is an emitted relative path meeting a closer homonym (known findings names:relative-path-captured/..) - any other "
-            "failure is a violation with the descriptor as input",
+            "that is an emitted relative path meeting a closer homonym (known findings names:relative-path-captured/..); a use "
+            "printed under a GENERATED name (printed leaf differs from the source leaf) that meets a local printed with that very "
+            "name is set apart (`generated-name-taken-by-local`: the collision is of the exporter's own making, never a known "
+            "class) - this and any other failure is a violation with the descriptor as input",
     "level_text": "Proof by composition, machine-checked for expressions. (1) reelab_no_new_casts: for every expression of the C03 "
                   "elaboration model (all operators, ?:, comma, casts, calls through overload resolution; scalar / vector / matrix / "
                   "modified types; induction over all source expressions, debug and release builds) every syntax tree the front end "
@@ -374,7 +444,20 @@ SPEC = {
                   "emitted_literal_kind_int32_witness: for an Int32 argument (f<K>, f<(int)3>) the call site prints a bare literal, "
                   "`int y = N + 1` is Add(Int32, Int32) first and Cast(int, Add(IntLiteral, IntLiteral)) second (known finding, "
                   "reproducers in the corpus); mutant_discipline_loses_literal_kind: recording a literal argument as Int32 (seeded "
-                  "mutant C04-4) puts f<3> into that case. The legs' property theorems (C10 literals, C09 round trip, C15 "
+                  "mutant C04-4) puts f<3> into that case. (7) Generated names against locals: types are emitted as root-relative paths, "
+                  "locals as plain identifiers, and the lookup reads the locals of a scope first; "
+                  "local_meets_only_kept_names - for every input of C15's model of NameMap::build (any namespaces, entries, "
+                  "locals, reserved list) a local / parameter printed with the name of a namespace, struct, enum, enum value, global "
+                  "or function meets a symbol that kept its source name; generated_names_apart_from_locals - a symbol printed under "
+                  "a generated name (texture -> texture_0; A next to a namespace A -> A_1) shares it with no local (proof: a scope "
+                  "names a symbol with its source name or with a candidate it records in St.gen, scopeRun_src_or_gen, and the local "
+                  "pass starts from reserved ++ gen of all scopes ++ used names and never picks a member of its start set); "
+                  "generated_names_reserved_as_modelled pins every statement of NameMap::build that touches used_names_all_scopes "
+                  "(created before the per-scope loop, every inserted candidate recorded, usage loop, test and extension by the "
+                  "local pass) to the re-extracted Gen.NameReserve; late_set_loses_generated_type_names: with the set created after "
+                  "the loop (seeded mutant C04-5, buildLate - not the code) struct texture / enum pass and the locals texture_0 / "
+                  "pass_0 are all printed texture_0 / pass_0 while a used function is still avoided (program in the corpus). What "
+                  "remains for kept names is the known capture class by-local. The legs' property theorems (C10 literals, C09 round trip, C15 "
                   "names) and their Gen tables are obligations of C04. Partial: structural statements, declarations, structs, "
                   "template instantiation itself (naming of instances, headers, loops / switch / array sizes in instance bodies), intrinsic calls and the text leg of trees with casts are not in a Lean composition theorem; they are "
                   "exercised by the whole-program fixpoint run and the re-elaboration stream.",
@@ -397,6 +480,10 @@ SPEC = {
         "trusted for naming the known class only",
         "the C04.reelab correspondence run: the model's prediction of the second-generation IR skeleton vs the real front end on the "
         "real emitted text",
+        "Model/Names.lean (C15's model of NameMap::build, tied by C15's correspondence run and Gen.Reserved) under the theorems of "
+        "section GeneratedNames; Gen.NameReserve (tools/gens/c04.py: block structure of NameMap::build read by brace matching on "
+        "the comment-stripped source); the source-side simulation of harness/src/c04/names.rs (entity ids, source leaf names) is "
+        "trusted for telling a generated name from a kept one when a failure is classified",
         "Model/FixpointNames.lean (scope table, walkInto / findInScope / find, the descriptor machine exec = symbol insertion of "
         "enter_namespace / insert_global / insert_function_in_scope / begin_struct / begin_enum / register_enum_value / register_typedef "
         "/ insert_variable, exportInstrs = the program the second generation sees) - tied by path_lookup_as_modelled "
@@ -414,6 +501,9 @@ SPEC = {
         "the names model has no overload sets with more than one function, no templates, no cbuffers and no struct-qualified "
         "paths (the code has none either: walk_into_scopes enters namespaces and enums only); those are exercised by the "
         "free-form sources of the corpus / search list through the whole-program oracle",
+        "generated_names_apart_from_locals is about the name map; that a local of that name would capture the printed type is the "
+        "stage order of find_identifier_in_scope (path_lookup_as_modelled) and is exercised, not proved, for whole programs "
+        "(C04.names); member names of structs are outside NameMap::build's local pass (TODO in the code)",
         "the constant evaluator keeps the kind of a literal and of a negated literal (C02's evaluator model): assumed by "
         "secondRecordKind; 64-bit template arguments are outside the Scalar model (parse_literal refuses 64-bit literals)",
         "the print / parse round trip of exported trees that contain casts is assumed (ParsesBack): C09's model has no cast node",
